@@ -797,6 +797,19 @@ class SymExec(object):
                 sig = self.record_fields(f) or self.signature(f)
                 if sig is not None:
                     args, kws = _positional(sig, args, kws)
+            if f[0] == 'lambda' and not kws and not any(a_[0] == 'star' for a_ in args) and self.inline:
+                # calling a lambda made on this path: its body, with the arguments for its parameters
+                got_ = st.data.get('lambdas', {}).get(f[1])
+                if got_ is not None:
+                    ln_, _snap, env0_ = got_
+                    la_ = ln_.args
+                    if not (la_.vararg or la_.kwarg or la_.kwonlyargs or la_.posonlyargs) and len(la_.args) - len(la_.defaults) <= len(args) <= len(la_.args):
+                        sub_ = State()
+                        sub_.env = dict(env0_)
+                        for i_, a_ in enumerate(la_.args):
+                            sub_.env[a_.arg] = args[i_] if i_ < len(args) else self.ev(la_.defaults[i_ - (len(la_.args) - len(la_.defaults))], st)
+                        sub_.conds, sub_.events, sub_.data = st.conds, st.events, st.data
+                        return self.ev(ln_.body, sub_)
             if f[0] == 'attr' and f[1] == ('name', 'operator') and not kws and not any(a_[0] == 'star' for a_ in args):
                 # the function forms of the operators: operator.eq(a, b) is a == b, operator.xor(a, b) is a ^ b, ..
                 _cmp = {'eq': '==', 'ne': '!=', 'lt': '<', 'le': '<=', 'gt': '>', 'ge': '>=', 'is_': 'is', 'is_not': 'is not'}
@@ -1142,7 +1155,16 @@ class SymExec(object):
                     parts.append(E(v.value))
             return mk_fstr(parts)
         if isinstance(n, ast.Lambda):
-            return ('lambda', src(n))
+            # remembered on the path, with the bindings it closes over, so that a call of it can be read in place
+            reg_ = st.data.setdefault('lambdas', {})
+            key_ = src(n)
+            free_ = {x_.id for x_ in ast.walk(n.body) if isinstance(x_, ast.Name)} - {a_.arg for a_ in n.args.args}
+            snap_ = {k_: st.env.get(k_) for k_ in free_}
+            if key_ in reg_ and reg_[key_] is not None and reg_[key_][1] != snap_:
+                reg_[key_] = None           # the same text closing over other values: not told apart by the term
+            elif key_ not in reg_:
+                reg_[key_] = (n, snap_, dict(st.env))
+            return ('lambda', key_)
         if isinstance(n, ast.ListComp) and len(n.generators) == 1 and not n.generators[0].ifs and any(isinstance(x_, ast.Call) for x_ in ast.walk(n.elt)) \
                 and isinstance(n.generators[0].iter, ast.Call) and isinstance(n.generators[0].iter.func, ast.Name) and n.generators[0].iter.func.id == 'range':
             # [f() for _ in range(k)] with a small constant k: k evaluations of the element, in order -- the display it
